@@ -1716,6 +1716,8 @@ func (s *Server) clearExpiredClients(dt int64) {
 
 		if disconnected+int64(expire) < dt {
 			s.hooks.OnClientExpired(client)
+			client.ClearInflights()
+			s.UnsubscribeClient(client)
 			s.Clients.Delete(id) // [MQTT-4.1.0-2]
 		}
 	}
